@@ -213,7 +213,7 @@ def _seeded(pid, d):
     if 'error' in r:
         return name, 'patch-does-not-apply', [r['error']]
     v = r[pid]['verdict']
-    twin = re.search(r'R\d$', name) is not None
+    twin = re.search(r'R\d+$', name) is not None
     if twin:
         return name, {'holds': 'silent', 'VIOLATION': 'ALARM', 'incomplete': 'incomplete'}[v], r[pid]['rules']
     return name, {'holds': 'MISSED', 'VIOLATION': 'caught', 'incomplete': 'incomplete'}[v], r[pid]['rules']
